@@ -347,6 +347,51 @@ class Exit:
         return V
 
 
+class TraceBackward:
+    """TRACE integrating backwards in time through a pericentre passage / close encounter (each of its switch modes)"""
+    def __init__(self, rebound):
+        self.rebound = rebound
+
+    def __call__(self, task):
+        peri_mode, scenario, sign = task
+        rebound = self.rebound
+        rb.quiet()
+
+        def build(integ):
+            sim = rebound.Simulation()
+            sim.add(m=1.0)
+            if scenario == "pericentre":
+                sim.add(m=1e-5, a=1.0, e=0.95, f=-2.6 * sign)
+                sim.add(m=1e-5, a=5.0, e=0.05, f=1.0)
+            else:
+                sim.add(m=1e-4, a=1.0, e=0.01, f=0.0)
+                sim.add(m=1e-4, a=1.03, e=0.01, f=-0.06 * sign)
+            sim.move_to_com()
+            sim.integrator = integ
+            sim.dt = 0.02 * sign
+            return sim
+        T = 1.5 * sign
+        ref = build("ias15")
+        ref.integrate(T)
+        sim = build("trace")
+        sim.ri_trace.peri_mode = peri_mode
+        x0 = [(p.x, p.y, p.z) for p in sim.particles]
+        sim.integrate(T)
+        V = []
+        tag = "TRACE peri_mode=%s, %s scenario, integrate(%+g) with dt=%+g" % (peri_mode, scenario, T, 0.02 * sign)
+        d = "backward" if sign < 0 else "forward"
+        if abs(sim.t - T) > 1e-9:
+            V.append(("trace-encounter:%s:%s:%s:time" % (d, scenario, peri_mode), "%s ended at t=%r" % (tag, sim.t)))
+            return V
+        moved = max(abs(a - b) for p, q in zip(sim.particles, x0) for a, b in zip((p.x, p.y, p.z), q))
+        err = max(abs(getattr(p, c) - getattr(q, c)) for p, q in zip(sim.particles, ref.particles) for c in ("x", "y", "z"))
+        if moved < 1e-6:
+            V.append(("trace-encounter:%s:%s:%s:no-motion" % (d, scenario, peri_mode), "%s: no particle moved" % tag))
+        elif err > (1e-2 if sign > 0 else 1e-3):
+            V.append(("trace-encounter:%s:%s:%s:wrong" % (d, scenario, peri_mode), "%s: positions differ from IAS15 by %.3g" % (tag, err)))
+        return V
+
+
 def compositions(offsets):
     out = []
     for o in offsets:
@@ -409,8 +454,17 @@ def run(ctx):
             continue
         for sig, what in r[1]:
             ctx.violation(sig, what, {"kind": "exit", "task": list(t)})
+    # TRACE through a pericentre passage / close encounter in both directions of time (termination is part of the contract)
+    ttasks = [(pm, sc, sg) for pm in ("PARTIAL_BS", "FULL_BS", "FULL_IAS15") for sc in ("pericentre", "encounter") for sg in (1, -1)]
+    tres = pool.run_tasks(TraceBackward(rebound), ttasks, timeout=30, chunk=1)
+    for t, r in zip(ttasks, tres):
+        if r[0] != "ok":
+            ctx.violation("trace-encounter:%s:%s:%s:%s" % ("backward" if t[2] < 0 else "forward", t[1], t[0], r[0]), "%s: TRACE peri_mode=%s, %s scenario, direction %+d: %s" % (r[0], t[0], t[1], t[2], str(r[1])[-300:]), {"kind": "trace", "task": list(t)})
+            continue
+        for sig, what in r[1]:
+            ctx.violation(sig, what, {"kind": "trace", "task": list(t)})
     cov = {
-        "states": len(tasks) + len(etasks), "transitions": ncalls + len(etasks), "traces_validated_against_impl": len(tasks) + len(etasks),
+        "states": len(tasks) + len(etasks) + len(ttasks), "transitions": ncalls + len(etasks), "traces_validated_against_impl": len(tasks) + len(etasks),
         "samples": [{"contract_case": list(tasks[0])}, {"exit_case": list(etasks[0])}],
         "contract_cases": len(tasks), "exit_cases": len(etasks), "integrators": integs,
         "exhaustive": True,
